@@ -49,6 +49,8 @@ pub struct Pool {
     pub large: Option<usize>,
     pub follow_ups: usize,
     pub max_blocks_per_reply: usize,
+    /// at most this many announced headers per reply (as the real adapter caps them)
+    pub max_next: usize,
 }
 
 impl Pool {
@@ -69,6 +71,7 @@ impl Pool {
             large: if follow_ups > 0 { Some(1) } else { None },
             follow_ups,
             max_blocks_per_reply: 2,
+            max_next: 100,
         }
     }
 
@@ -91,6 +94,38 @@ impl Pool {
             large: if follow_ups > 0 { Some(3) } else { None },
             follow_ups,
             max_blocks_per_reply: 1,
+            max_next: 100,
+        }
+    }
+
+    /// One chain G - T1 - ... - Tn, T2 is the large block, one block and at most three
+    /// announced headers per reply: every reply announces a header that no earlier reply
+    /// announced, and the canister is more than two blocks behind them for a while.
+    pub fn tall(net: ic_btc_interface::Network, follow_ups: usize, n: usize) -> Pool {
+        let book = Book::new(net);
+        let g = factory::genesis(net);
+        let mut blocks: Vec<bitcoin::Block> = vec![];
+        for i in 0..n {
+            let prev = blocks.last().map(|b| b.header).unwrap_or(g.header);
+            let outs: Vec<(u64, usize)> = if i == 1 { vec![(20, A), (21, B), (22, C), (23, D)] } else { vec![(10 + i as u64, A)] };
+            let txs = vec![coinbase_tx(31 + i as u64, outs.into_iter().map(|(v, a)| (v, book.script(a))).collect())];
+            blocks.push(factory::regtest_block(&prev, prev.time + 600, txs));
+        }
+        Pool {
+            blocks,
+            large: if follow_ups > 0 { Some(1) } else { None },
+            follow_ups,
+            max_blocks_per_reply: 1,
+            max_next: 3,
+        }
+    }
+
+    /// Height of pool block `i` (genesis = 0).
+    pub fn height(&self, i: usize) -> u32 {
+        let p = self.blocks[i].header.prev_blockhash.to_byte_array();
+        match self.blocks.iter().position(|b| b.block_hash().to_byte_array() == p) {
+            Some(j) => self.height(j) + 1,
+            None => 1,
         }
     }
 
@@ -139,6 +174,10 @@ impl Pool {
 pub struct SourceState {
     /// pages of the partial response being served, if any
     pub pages: Option<Vec<Vec<u8>>>,
+    /// pool indices announced with the partial response being served
+    pub partial_next: Vec<usize>,
+    /// pool indices announced with the response the canister holds for processing (source side)
+    pub pending_next: Vec<usize>,
 }
 
 pub struct SCtx {
@@ -153,6 +192,8 @@ pub struct SCtx {
     pub expect_initial: bool,
     pub last_was_upgrade: bool,
     pub syncing: bool,
+    /// reference: pool blocks announced in replies the canister has processed
+    pub announced_ref: std::collections::BTreeSet<usize>,
 }
 
 pub struct SchedModel {
@@ -170,6 +211,8 @@ pub struct SchedModel {
     pub upgrade_transparency: bool,
     /// offer set_config(syncing) toggles as deviations
     pub syncing_toggles: bool,
+    /// canister with disable_api_if_not_fully_synced: judge the sync gate in every state (C14)
+    pub sync_gate: bool,
 }
 
 fn hash_of_bh(h: &ic_btc_types::BlockHash) -> H32 {
@@ -189,9 +232,16 @@ impl SchedModel {
                         let pages = self.pool.pages();
                         let first_page = pages[0].clone();
                         s.src.pages = Some(pages);
+                        // the headers of the blocks that do not fit travel with the first page
+                        s.src.partial_next = cands[1..].iter().copied().take(self.pool.max_next).collect();
                         return GetSuccessorsResponse::Partial(GetSuccessorsPartialResponse {
                             partial_block: first_page,
-                            next: vec![],
+                            next: s
+                                .src
+                                .partial_next
+                                .iter()
+                                .map(|c| header_blob(factory::header_bytes(&self.pool.blocks[*c].header)))
+                                .collect(),
                             remaining_follow_ups: self.pool.follow_ups as u8,
                         });
                     }
@@ -205,14 +255,19 @@ impl SchedModel {
                         rest.push(c);
                     }
                 }
+                s.src.pending_next = rest.iter().copied().take(self.pool.max_next).collect();
                 let next = rest
                     .iter()
+                    .take(self.pool.max_next)
                     .map(|c| header_blob(factory::header_bytes(&self.pool.blocks[*c].header)))
                     .collect();
                 GetSuccessorsResponse::Complete(GetSuccessorsCompleteResponse { blocks, next })
             }
             GetSuccessorsRequest::FollowUp(k) => match &s.src.pages {
                 Some(pages) if (*k as usize) + 1 < pages.len() => {
+                    if (*k as usize) + 2 == pages.len() {
+                        s.src.pending_next = s.src.partial_next.clone();
+                    }
                     GetSuccessorsResponse::FollowUp(pages[*k as usize + 1].clone())
                 }
                 _ => {
@@ -299,6 +354,71 @@ impl SchedModel {
         }
     }
 
+    /// A stored complete response was processed by the last heartbeat: every header it
+    /// announced is now pending, unless its block is in the tree or its height is stable.
+    fn response_processed(&self, s: &mut SCtx, next: &[usize], out: &mut Out, check: bool) {
+        let idx: Vec<usize> = next.to_vec();
+        for i in &idx {
+            s.announced_ref.insert(*i);
+        }
+        if !check {
+            return;
+        }
+        let tree = s.w.tree_hashes();
+        let pending: Vec<H32> = crate::props::c20::dump_unstable().map(|d| d.hdr_by_hash.keys().copied().collect()).unwrap_or_default();
+        let sh = s.w.stable_height();
+        for i in idx {
+            let h = self.pool.hash(i);
+            if pending.contains(&h) || tree.contains(&h) || self.pool.height(i) <= sh {
+                out.count("announced_headers_accounted_for_after_processing");
+            } else {
+                out.violation(
+                    "announced-header-lost",
+                    None,
+                    json!({"pool_block": i, "height": self.pool.height(i), "stable_height": sh}),
+                );
+            }
+        }
+    }
+
+    /// Sync gate (C14): a data endpoint refuses iff the highest pending announced header of
+    /// the reference is more than two above the best chain.
+    fn gate_check(&self, s: &mut SCtx, out: &mut Out) {
+        let tree = s.w.tree_hashes();
+        let sh = s.w.stable_height();
+        let max_announced = s
+            .announced_ref
+            .iter()
+            .filter(|i| !tree.contains(&self.pool.hash(**i)) && self.pool.height(**i) > sh)
+            .map(|i| self.pool.height(*i))
+            .max();
+        let Ok(info) = s.w.info() else { return };
+        let must_refuse = max_announced.map_or(false, |m| m > info.height + 2);
+        let r = s.w.balance(s.w.book.text(0), None);
+        let refused = matches!(&r, Err(p) if p.starts_with("Canister state is not fully synced"));
+        let answered = matches!(&r, Ok(Ok(_)));
+        if must_refuse && !refused {
+            out.violation(
+                "answered-but-must-refuse",
+                None,
+                json!({"endpoint": "get_balance", "max_announced_height": max_announced, "best_height": info.height, "got": format!("{:?}", r)}),
+            );
+        } else if !must_refuse && !answered {
+            out.violation(
+                "refused-but-must-answer",
+                None,
+                json!({"endpoint": "get_balance", "max_announced_height": max_announced, "best_height": info.height, "got": format!("{:?}", r)}),
+            );
+        } else if must_refuse {
+            out.count("gate_closed_states");
+        } else {
+            out.count("gate_open_states");
+            if max_announced.is_some() {
+                out.count("gate_open_states_with_pending_headers");
+            }
+        }
+    }
+
     fn structural_checks(&self, s: &mut SCtx, out: &mut Out) {
         // (1) at most one outstanding request
         if s.parked.len() > 1 {
@@ -348,7 +468,11 @@ impl Model for SchedModel {
     type Ev = SEv;
 
     fn init(&self) -> SCtx {
-        let w = World::new(WorldCfg::on(self.net, self.theta));
+        // a non-default blocks source, so that the destination of the requests is observable
+        let mut wcfg = WorldCfg::on(self.net, self.theta);
+        wcfg.custom_source = true;
+        wcfg.disable_if_not_synced = self.sync_gate;
+        let w = World::new(wcfg);
         rt::enable_yield_point(true);
         let _ = rt::take_built_requests();
         SCtx {
@@ -361,6 +485,7 @@ impl Model for SchedModel {
             expect_initial: false,
             last_was_upgrade: false,
             syncing: true,
+            announced_ref: Default::default(),
         }
     }
 
@@ -414,6 +539,10 @@ impl Model for SchedModel {
                     }
                 }
                 let _ = rt::take_built_requests();
+                // a complete response waiting to be processed
+                let stored_complete = with_state(|st| {
+                    matches!(&st.syncing_state.response_to_process, Some(ic_btc_canister::state::ResponseToProcess::Complete(_)))
+                });
                 crate::world::set_budget(self.hb_budget);
                 let mut fut: Pin<Box<dyn Future<Output = ()>>> = Box::pin(ic_btc_canister::heartbeat());
                 let r = guarded(|| {
@@ -457,6 +586,14 @@ impl Model for SchedModel {
                     }
                 }
                 self.absorb(s, out, check);
+                if stored_complete {
+                    let processed = with_state(|st| st.syncing_state.response_to_process.is_none());
+                    if processed {
+                        // judged against what the source sent, not against what was stored
+                        let next = std::mem::take(&mut s.src.pending_next);
+                        self.response_processed(s, &next, out, check);
+                    }
+                }
             }
             SEv::Reply { which, kind } => {
                 if *which >= s.parked.len() {
@@ -502,6 +639,7 @@ impl Model for SchedModel {
                         if check {
                             out.count("empty_replies");
                         }
+                        s.src.pending_next = vec![];
                         GetSuccessorsReply::Ok(GetSuccessorsResponse::Complete(GetSuccessorsCompleteResponse::default()))
                     }
                 };
@@ -538,10 +676,51 @@ impl Model for SchedModel {
                             json!({"sent": sent.len()}),
                         );
                     }
+                    if sent.len() == 1 && sent[0].0 != crate::world::configured_source(&s.w.cfg) {
+                        out.violation(
+                            "request-sent-to-another-canister",
+                            None,
+                            json!({"destination": sent[0].0.to_text(), "configured": crate::world::configured_source(&s.w.cfg).to_text()}),
+                        );
+                    }
                     if matches!(kind, Reply::Reject) {
                         let stored = with_state(|st| st.syncing_state.response_to_process.is_some());
                         if stored {
                             out.violation("reject-kept-partial-data", None, json!({}));
+                        }
+                    }
+                    // the last page arrived: what is stored for processing is exactly what
+                    // the source sent (the block bytes and the headers of the first page)
+                    if matches!(kind, Reply::Normal)
+                        && matches!(request, GetSuccessorsRequest::FollowUp(_))
+                        && s.expect_follow_up.is_none()
+                        && s.src.pages.is_some()
+                    {
+                        let large = self.pool.large.expect("large block");
+                        let want_block = factory::block_bytes(&self.pool.blocks[large]);
+                        let want_next: Vec<ic_btc_canister::types::BlockHeaderBlob> = s
+                            .src
+                            .partial_next
+                            .iter()
+                            .map(|c| header_blob(factory::header_bytes(&self.pool.blocks[*c].header)))
+                            .collect();
+                        let ok = with_state(|st| match &st.syncing_state.response_to_process {
+                            Some(ic_btc_canister::state::ResponseToProcess::Complete(c)) => {
+                                c.blocks.len() == 1 && c.blocks[0] == want_block && c.next == want_next
+                            }
+                            _ => false,
+                        });
+                        if !ok {
+                            out.violation(
+                                "reassembled-response-differs-from-what-the-source-sent",
+                                None,
+                                json!({"pages": self.pool.follow_ups + 1, "announced_with_first_page": want_next.len()}),
+                            );
+                        } else {
+                            out.count("reassembled_responses_identical");
+                            if !want_next.is_empty() {
+                                out.count("reassembled_responses_with_announced_headers");
+                            }
                         }
                     }
                 }
@@ -625,6 +804,9 @@ impl Model for SchedModel {
 
     fn check(&self, s: &mut SCtx, hist: &[SEv], out: &mut Out) {
         self.structural_checks(s, out);
+        if self.sync_gate && !s.dead {
+            self.gate_check(s, out);
+        }
         out.distinct.insert(crate::world::full_fingerprint() as u64);
         if let Ok(i) = s.w.info() {
             out.outcomes.insert(crate::util::fp64(&i.block_hash));
@@ -698,6 +880,16 @@ impl Model for SchedModel {
         b.push(s.last_was_upgrade as u8);
         b.push(s.dead as u8);
         b.push(s.syncing as u8);
+        b.push(0xFE);
+        for i in &s.announced_ref {
+            b.push(*i as u8);
+        }
+        b.push(0xFE);
+        b.extend(s.src.pending_next.iter().map(|i| *i as u8));
+        b.push(0xFE);
+        if s.src.pages.is_some() {
+            b.extend(s.src.partial_next.iter().map(|i| *i as u8));
+        }
         let h = crate::util::sha256(&b);
         Some(u128::from_le_bytes(h[..16].try_into().unwrap()))
     }
